@@ -1,6 +1,6 @@
 (* C05 runner: the self-contained models (statistics, rank lists, target loop) on a decoded case *)
 From Coq Require Import List Arith ZArith QArith Bool.
-From Gst Require Import lib.Sx lib.QAux lib.LinAlgQ C05.Reindex C05.Model C05.Spec.
+From Gst Require Import lib.Sx lib.QAux lib.LinAlgQ C05.Reindex C05.Model C05.Spec C05.Model2.
 From Gst Require C01.Model C01.Run C05.Spec_krige.
 Import ListNotations.
 
@@ -76,6 +76,29 @@ Definition run (c : sx) : sx :=
       | Some a, Some b, Some e, Some ts =>
           ofList (fun t => L [ofB (t_active t); ofList ofOQ (t_cells t)]) (run_simu_targets a b (fun it => nth it e []) ts)
       | _, _, _, _ => sx_error 7
+      end
+  | L [I 8%Z; hs; cst; naux; rows] =>
+      match asB hs, asB cst, asNat naux, asListOf asRow rows with
+      | Some hs', Some cst', Some na, Some l =>
+          let enc := fun st : regr_st => L [ofNat (g_num st); ofQ (g_prod st); ofQ (g_mean st); ofList ofQ (g_b st); ofList (ofList ofQ) (g_a st)] in
+          let st := regr_acc hs' cst' na l in
+          L [ofNat (g_num st); match regr_coeffs st with Some x => ofList ofQ x | None => L [] end;
+             enc st; enc (regr_acc hs' cst' na (filter (regr_usable hs' cst') l)); enc (regr_acc false cst' na (reduce_rows hs' l))]
+      | _, _, _, _ => sx_error 8
+      end
+  | L [I 9%Z; hs; dmin2; dmax2; targets; rows] =>
+      match asB hs, asQ dmin2, asOQ dmax2, asListOf (asListOf asQ) targets, asListOf asRow rows with
+      | Some hs', Some dm, Some dx, Some ts, Some l =>
+          L [ofList (fun t => ofOQ (invdist hs' dm dx t l)) ts;
+             ofList (fun t => ofOQ (invdist false dm dx t (filter (idw_usable hs') l))) ts]
+      | _, _, _, _, _ => sx_error 9
+      end
+  | L [I 10%Z; hs; dmax2; targets; rows] =>
+      match asB hs, asOQ dmax2, asListOf (asListOf asQ) targets, asListOf asRow rows with
+      | Some hs', Some dx, Some ts, Some l =>
+          L [ofList (fun t => ofOQ (migrate_value hs' dx t l)) ts;
+             ofList (fun t => ofOQ (migrate_value false dx t (filter (idw_usable hs') l))) ts]
+      | _, _, _, _ => sx_error 10
       end
   | L [I 5%Z; kc] =>
       match C01.Run.asCase kc with
